@@ -60,8 +60,16 @@ func hasConsts(op *proto.Op) bool {
 // touchesResolution: the operation is a resolution, carries pipeline
 // constants, or works on an object produced by a resolution.
 func touchesResolution(sc *proto.Scenario, op *proto.Op) bool {
-	if op.Kind == proto.OpResolve || hasConsts(op) {
+	if op.Kind == proto.OpResolve || op.Kind == proto.OpResolveInPlace || hasConsts(op) {
 		return true
+	}
+	for ti := range sc.Tasks {
+		for oi := range sc.Tasks[ti] {
+			o := &sc.Tasks[ti][oi]
+			if o.Kind == proto.OpResolveInPlace && o.Mod == op.Mod && usesMod(op.Kind) {
+				return true
+			}
+		}
 	}
 	if op.Kind == proto.OpLower || op.Kind == proto.OpOneshot || op.Kind == proto.OpScribble {
 		return false
@@ -122,6 +130,9 @@ func judge(sc *proto.Scenario, res *proto.Result, refs [][]*proto.OpResult, meta
 		switch v.Class {
 		case "I-MUT":
 			switch {
+			case v.Kind == proto.OpResolveInPlace:
+				f.Props = []string{"C14"}
+				f.Context = "failed-resolution"
 			case v.Kind == proto.OpResolve:
 				f.Props = []string{"C14"}
 				f.Context = "original"
@@ -267,10 +278,10 @@ func judge(sc *proto.Scenario, res *proto.Result, refs [][]*proto.OpResult, meta
 				continue
 			}
 			// C14 rule: a missing required value must be an error
-			if op.Kind == proto.OpResolve || hasConsts(op) {
+			if op.Kind == proto.OpResolve || op.Kind == proto.OpResolveInPlace || hasConsts(op) {
 				var cs []proto.Const
 				switch {
-				case op.Kind == proto.OpResolve:
+				case op.Kind == proto.OpResolve || op.Kind == proto.OpResolveInPlace:
 					cs = op.Consts
 				case op.GLSL != nil:
 					cs = op.GLSL.Consts
